@@ -42,6 +42,31 @@ def gen_attach(r, tier):
     return ops
 
 
+def gen_busy_stall(r, tier):
+    """a never-stop fan stalls at its minimum while an RPM measurement of the same controller is under way (waiting for a
+    slow RPM read that then FAILS): the control cycle that falls into it raises the minimum; afterwards the curve stays at 0
+    (direct loop), so the requests are the minimum plus the raises so far and must never fall (oracle-only; seed C02h: the
+    measurement wrote back a snapshot of the counters it had taken before the raise)"""
+    ops = []
+    ident = streams.int_map_tok({i: i for i in range(256)})
+    for _ in range(40 if tier == "quick" else 800):
+        lo = r.range(1, 200)
+        hi = r.range(lo + 10, 255)
+        ops.append("#case busy-stall")
+        ops.append(f"w.new kind=hwmon ns=1 win={r.pick([1, 2, 10])} minp={lo} maxp={hi} startp={lo} avg=x0000000000000000 map={ident} "
+                   f"loop=direct m=- resp=id pwm={lo} rpm=0 origmode=2 origpwm=0 mode=1")
+        now = r.range(1, 10**12)
+        for k in range(r.range(4, 14)):
+            now += 200_000_000
+            if k > 0 and r.chance(0.5):
+                ops.append(f"w.cyclebusy curve=0 now={now} fail={r.pick([1, 1, 0])}")
+            else:
+                ops.append(f"w.cycle curve=0 now={now}")
+            if r.chance(0.3):
+                ops.append("w.poll")
+    return ops
+
+
 class C02(Prop):
     id = "C02"
     lean_modules = ["Fan2go.Props.C02"]
@@ -54,7 +79,8 @@ class C02(Prop):
     streams = [Stream("ctrl-stall", gen_stall, parallel=8),
                Stream("ctrl", lambda r, tier: ctrl.gen_ctrl(r, tier, n_quick=300, n_thorough=8000), parallel=8),
                Stream("ctrl-long", ctrl.gen_long_quiet, parallel=8),
-               Stream("ctrl-attach", gen_attach, parallel=8)]
+               Stream("ctrl-attach", gen_attach, parallel=8),
+               Stream("busy-stall", gen_busy_stall, parallel=8, exact=False, contract=lambda op, a, b: True)]
 
     def oracle_attach(self, ops, go):
         """the floor is computed from the configuration and the measured data alone: the configured minPwm, else the
@@ -89,6 +115,23 @@ class C02(Prop):
 
     def oracle(self, name, ops, go):
         out = []
+        if name == "busy-stall":
+            # constant curve 0, direct loop: request = minimum + raises so far, which never falls
+            for cops, cgo in cases(ops, go):
+                prev = None
+                for i, (op, g) in enumerate(zip(cops, cgo)):
+                    if not op.startswith("w.cycle"):
+                        continue
+                    st = kv(g)
+                    if st.get("res") != "ok" or st.get("last", "-") == "-":
+                        break
+                    t = int(st["last"])
+                    if prev is not None and t < prev:
+                        out.append(viol(f"the request fell from {prev} to {t} although the curve stayed at its lowest value: the raised minimum dropped",
+                                        cops, cgo, upto=i))
+                        break
+                    prev = t
+            return out
         if name == "ctrl-attach":
             out += self.oracle_attach(ops, go)
         for cops, cgo in cases(ops, go):
